@@ -42,6 +42,7 @@ class stDAG(AbstractSourceSinkGraph):
     def _post_build(self):
         self.width = None
         self.flow_width = None
+        self._flow_width_key = None
         self.topological_order = list(nx.topological_sort(self))
         self.topological_order_rev = list(reversed(self.topological_order))
         self._reachable_nodes_from = None
@@ -139,7 +140,9 @@ class stDAG(AbstractSourceSinkGraph):
         - int: The flow-width of the graph.
         """
 
-        if self.flow_width != None:
+        # The stored value is valid only for the arguments it was computed with
+        flow_width_key = (flow_attr, frozenset(edges_to_ignore or []))
+        if self.flow_width != None and self._flow_width_key == flow_width_key:
             return self.flow_width
         
         G_nx = nx.DiGraph()
@@ -163,6 +166,7 @@ class stDAG(AbstractSourceSinkGraph):
         minFlowCost, _ = graphutils.min_cost_flow(G_nx, self.source, self.sink)
 
         self.flow_width = minFlowCost
+        self._flow_width_key = flow_width_key
 
         return self.flow_width
 
